@@ -1,6 +1,6 @@
 \* C19 thorough: every half window from 1 to 90 degrees
 CONSTANTS
-  HalfWindows = {1,2,3,5,8,10,15,20,21,22,23,30,44,45,46,60,75,88,89}
+  HalfWindows = {2,3,4,5,6,10,16,20,30,40,42,43,44,45,46,60,88,89,90,91,92,120,150,176,177,178}
   WrapStyle = "code"
   Rotations = {1, 2, 45, 89, 90, 91, 180, 269, 270, 271, 359}
 INIT Init
